@@ -344,45 +344,49 @@ def skipAfter (st : SkipSt) : Option SkipSt :=
     | [] => none
   else some { st with nrounds := st.nrounds - 1 }
 
+/-- the `match self.current()?` of one loop iteration (the decoder is at a byte `b`): the new
+    counters and whether the bookkeeping after the match runs (`false` = the `continue` of a tag head) -/
+def skipArm (st : SkipSt) : P (SkipSt × Bool) := fun cur =>
+  match cur with
+  | [] => .err .eoi
+  | b :: r =>
+    let v := b.toNat
+    if v ≤ 0x1b then (u64 cur).map fun _ => (st, true)
+    else if 0x20 ≤ v ∧ v ≤ 0x3b then (int cur).map fun _ => (st, true)
+    else if 0x40 ≤ v ∧ v ≤ 0x5f then (bytesIter cur).map fun _ => (st, true)
+    else if 0x60 ≤ v ∧ v ≤ 0x7f then (strIter cur).map fun _ => (st, true)
+    else if 0x80 ≤ v ∧ v ≤ 0x9f then
+      (array cur).map fun l =>
+        match l with
+        | some n => (skipDef st n, true)
+        | none => (skipIndef st, true)
+    else if 0xa0 ≤ v ∧ v ≤ 0xbf then
+      (map cur).map fun l =>
+        match l with
+        | some n => (skipDef st (satMul n 2), true)
+        | none => (skipIndef st, true)
+    else if 0xc0 ≤ v ∧ v ≤ 0xdb then (unsigned (info b) r).map fun _ => (st, false)
+    else if 0xe0 ≤ v ∧ v ≤ 0xfb then (unsigned (info b) r).map fun _ => (st, true)
+    else if v = 0xff then
+      if st.nrounds = 0 ∧ st.irounds = 0 then
+        match st.stack with
+        | none :: s => .ok ({ st with stack := s }, true) r
+        | _ => .ok (st, true) r
+      else .ok ({ st with irounds := st.irounds - 1 }, true) r
+    else .err .typ
+
+/-- the `while nrounds > 0 || irounds > 0 || !stack.is_empty()` loop -/
 def skipLoop : Nat → SkipSt → P Unit
   | 0, _, _ => .err .diverge
   | fuel + 1, st, cur =>
     if st.nrounds = 0 ∧ st.irounds = 0 ∧ st.stack = [] then .ok () cur
     else
-      match cur with
-      | [] => .err .eoi
-      | b :: r =>
-        let v := b.toNat
-        let next (st' : SkipSt) (cur' : Bytes) : Res Unit :=
+      (skipArm st cur).andThen fun (st', post) c =>
+        if post then
           match skipAfter st' with
-          | none => .ok () cur'
-          | some st'' => skipLoop fuel st'' cur'
-        if v ≤ 0x1b then (u64 cur).andThen fun _ c => next st c
-        else if 0x20 ≤ v ∧ v ≤ 0x3b then (int cur).andThen fun _ c => next st c
-        else if 0x40 ≤ v ∧ v ≤ 0x5f then (bytesIter cur).andThen fun _ c => next st c
-        else if 0x60 ≤ v ∧ v ≤ 0x7f then (strIter cur).andThen fun _ c => next st c
-        else if 0x80 ≤ v ∧ v ≤ 0x9f then
-          (array cur).andThen fun l c =>
-            match l with
-            | some n => next (skipDef st n) c
-            | none => next (skipIndef st) c
-        else if 0xa0 ≤ v ∧ v ≤ 0xbf then
-          (map cur).andThen fun l c =>
-            match l with
-            | some n => next (skipDef st (satMul n 2)) c
-            | none => next (skipIndef st) c
-        else if 0xc0 ≤ v ∧ v ≤ 0xdb then
-          -- `continue`: the bookkeeping after the match is not run for a tag head
-          (unsigned (info b) r).andThen fun _ c => skipLoop fuel st c
-        else if 0xe0 ≤ v ∧ v ≤ 0xfb then
-          (unsigned (info b) r).andThen fun _ c => next st c
-        else if v = 0xff then
-          if st.nrounds = 0 ∧ st.irounds = 0 then
-            match st.stack with
-            | none :: s => next { st with stack := s } r
-            | _ => next st r
-          else next { st with irounds := st.irounds - 1 } r
-        else .err .typ
+          | none => .ok () c
+          | some st'' => skipLoop fuel st'' c
+        else skipLoop fuel st' c
 
 /-- `Decoder::skip()` -/
 def skip : P Unit := fun cur => skipLoop (cur.length + 1) ⟨1, 0, []⟩ cur
